@@ -20,3 +20,70 @@ Theorem C07_sample_resave_fixed_point :
   | _ => False
   end.
 Proof. exact sample_resave_fixed_point. Qed.
+
+(* ==== XML: the document is a function of the logical content (Proofs/XmlDeterminism.v).  The serializer sorts an instance's
+   properties by name, so any listing (hash iteration order) of the same property map gives the same document; referent numbers are
+   assigned by order of first use, so any injective renaming of the Ref values that fixes the null Ref gives the same document;
+   the SharedStrings dictionary is sorted by hash and so independent of discovery order.  Hypotheses are necessary: witnesses
+   rename_needs_injectivity, rename_needs_null_fixed, bsort_perm_needs_distinct_keys, shared_of_collision_order_matters. *)
+From RbxVerif Require Import XmlEvents XmlValues XmlFile XmlDeterminism.
+
+Theorem C07_xml_bsort_perm :
+  forall (V : Type) (l l' : list (bytes * V)),
+       Permutation.Permutation l l' -> NoDup (List.map fst l) -> bsort l = bsort l'.
+Proof. intro V. exact (@bsort_perm V). Qed.
+
+Theorem C07_xml_encode_props_order :
+  forall (e : xenv) (beh : ebehavior) (d d' : cdom) (roots : list N),
+       props_permuted d d' -> xml_encode e beh d' roots = xml_encode e beh d roots.
+Proof. exact xml_encode_props_order. Qed.
+
+Theorem C07_xml_encode_rename :
+  forall (phi : N -> N) (e : xenv) (beh : ebehavior) (d : cdom) (roots : list N),
+       phi 0 = 0 ->
+       injective_on (dom_refs d roots) phi ->
+       xml_encode e beh (rename_dom phi d) (List.map phi roots) = xml_encode e beh d roots.
+Proof. exact xml_encode_rename. Qed.
+
+Theorem C07_xml_encode_function_of_content :
+  forall (phi : N -> N) (e : xenv) (beh : ebehavior) (d d' : cdom) (roots : list N),
+       props_permuted d d' ->
+       phi 0 = 0 ->
+       injective_on (dom_refs d roots) phi ->
+       xml_encode e beh (rename_dom phi d') (List.map phi roots) = xml_encode e beh d roots.
+Proof. exact xml_encode_function_of_content. Qed.
+
+Theorem C07_xml_shared_of_set :
+  forall ps ps' : list (bytes * bytes),
+       functional ps -> (forall x : bytes * bytes, In x ps <-> In x ps') -> shared_of ps = shared_of ps'.
+Proof. exact shared_of_set. Qed.
+
+Theorem C07_xml_shared_strings_element_of_set :
+  forall (ps ps' : list (bytes * bytes)) (m : list (N * N)) (n : N) (m' : list (N * N)) (n' : N),
+       functional ps ->
+       (forall x : bytes * bytes, In x ps <-> In x ps') ->
+       serialize_shared_strings {| es_map := m; es_next := n; es_shared := shared_of ps |} =
+       serialize_shared_strings {| es_map := m'; es_next := n'; es_shared := shared_of ps' |}.
+Proof. exact shared_strings_element_of_set. Qed.
+
+Theorem C07_xml_encode_dictionary_sorted :
+  forall (e : xenv) (beh : ebehavior) (d : list inst) (roots : list N) (body : list wevent)
+         (st : estate),
+       seq_with (serialize_instance (S (Datatypes.length d)) e beh d) roots es0 = Ok (body, st) ->
+       Sorted.StronglySorted klt (es_shared st).
+Proof. exact xml_encode_dictionary_sorted. Qed.
+
+Theorem C07_xml_rename_needs_injectivity :
+  xml_encode XmlFileFacts.e0 EWriteUnknown (rename_dom (fun r : N => if r =? 9 then 7 else r) d_abc) [7] <>
+       xml_encode XmlFileFacts.e0 EWriteUnknown d_abc [7].
+Proof. exact rename_needs_injectivity. Qed.
+
+Theorem C07_xml_rename_needs_null_fixed :
+  let d :=
+         [{|
+            i_ref := 1; i_parent := 0; i_class := B "Folder"; i_name := B "f"; i_props := [(B "R", VRef 0)]
+          |}] in
+       xml_encode XmlFileFacts.e0 EWriteUnknown (rename_dom (fun r : N => r + 1) d) [2] <>
+       xml_encode XmlFileFacts.e0 EWriteUnknown d [1].
+Proof. exact rename_needs_null_fixed. Qed.
+
